@@ -5,14 +5,19 @@
 //! Three framings of the same data model (`Fmt`):
 //!
 //! * `Named`  - self-describing, like a JSON object / RON struct: `Struct(name, len) Field(k) v ... End`.
-//! * `Listed` - compact *delimited* sequence, like a JSON array / RON tuple / MessagePack array: `Seq(len) v ... End`
-//!              (no struct name, no field names; the sequence is delimited by the data, `len` comes from the serializer).
+//! * `Listed` - compact *delimited* sequence, like a JSON array (serde_json accepts `[..]` for a struct) or a MessagePack array
+//!              (rmp-serde's default struct encoding): `Seq(len) v ... End` (no struct name, no field names; the sequence is
+//!              delimited by the data, `len` is the one the serializer was given).
 //! * `Packed` - compact *undelimited* value stream, like bincode / postcard: only the numbers; every length comes from the
 //!              hint the `Deserialize` impl passes (`fields.len()` of `deserialize_struct`, `len` of `deserialize_tuple`).
 //!
 //! Newtype structs are transparent in all three (as in serde_json, ron, rmp-serde, bincode). A `Play` over a `Named` or
 //! `Listed` stream decides between `visit_map` and `visit_seq` by the recorded token (as serde_json does for `{` / `[`).
 //! Errors carry no message: `custom()` drops its `Display` argument without formatting it, so no `format!` is reachable.
+//!
+//! Not modelled: maps (`serialize_map` / `deserialize_map`) and `deserialize_any`, i.e. `#[serde(flatten)]`, whose
+//! deserialization goes through serde's heap-allocated `Content` buffer (tried: no CBMC result within 600 s, symbolic
+//! execution drowns in `Content::as_str` -> `from_utf8` validation loops and the recursive `Content` drop glue).
 
 use core::fmt;
 use serde::de::{self, DeserializeSeed, Visitor};
@@ -50,8 +55,8 @@ pub enum Kind {
     F64,
 }
 
-/// One recorded data-model event. A flat struct rather than an enum with payloads: a `&'static str` that overlays numbers in
-/// a tagged union makes CBMC lose the pointer's target (the field-name comparisons then cost minutes instead of seconds).
+/// One recorded data-model event: a flat (kind, name, number) record, so that a name pointer never overlays a number in a
+/// tagged union and every field sits at a fixed offset. `==` compares kind, name (by content) and number.
 #[derive(Clone, Copy, PartialEq, Eq, Debug)]
 pub struct Tok {
     pub kind: Kind,
@@ -161,19 +166,6 @@ impl Rec {
         Rec { toks: [Tok::Empty; CAP], n: 0, fmt }
     }
 
-    /// A recorder pre-filled with a hand-built stream (for streams palette's own `Serialize` would not produce, e.g. `alpha`
-    /// first).
-    pub fn of(fmt: Fmt, toks: &[Tok]) -> Rec {
-        let mut r = Rec::new(fmt);
-        let mut i = 0;
-        while i < toks.len() {
-            r.toks[i] = toks[i];
-            i += 1;
-        }
-        r.n = toks.len();
-        r
-    }
-
     pub fn push(&mut self, t: Tok) -> Result<(), E> {
         if self.n >= CAP {
             return Err(E::Backend);
@@ -181,21 +173,6 @@ impl Rec {
         self.toks[self.n] = t;
         self.n += 1;
         Ok(())
-    }
-
-    /// The recorded stream is exactly `want`.
-    pub fn is(&self, want: &[Tok]) -> bool {
-        if self.n != want.len() {
-            return false;
-        }
-        let mut i = 0;
-        while i < want.len() {
-            if self.toks[i] != want[i] {
-                return false;
-            }
-            i += 1;
-        }
-        true
     }
 
     fn open(&mut self, len: usize) -> Result<(), E> {
@@ -600,6 +577,29 @@ impl<'de, 'b, 'a> de::Deserializer<'de> for &'b mut Play<'a> {
 
 // ---------------------------------------------------------------------------------------------------------------- helpers
 
+/// `stream![fmt; tok, tok, ...]`: a recorder pre-filled with a hand-built stream (for streams palette's own `Serialize` does
+/// not produce, e.g. `alpha` first). Expands without a loop, so that it does not raise the harness's unwinding bound.
+macro_rules! stream {
+    ($fmt:expr; $($tok:expr),* $(,)?) => {{
+        let mut r = $crate::c20_support::Rec::new($fmt);
+        $( let _ = r.push($tok); )*
+        r
+    }};
+}
+
+/// `shape!(rec; tok, tok, ...)`: the recorded stream is exactly these tokens (loop-free; `Tok` equality compares kind, name
+/// and number).
+macro_rules! shape {
+    ($rec:expr; $($tok:expr),* $(,)?) => {{
+        let r: &$crate::c20_support::Rec = &$rec;
+        let mut i = 0usize;
+        let mut ok = true;
+        $( ok = ok && i < r.n && r.toks[i] == $tok; i += 1; )*
+        ok && r.n == i
+    }};
+}
+pub(crate) use {shape, stream};
+
 /// Serializes `value` in framing `fmt`; the result says whether every data-model call was accepted.
 pub fn record<T: Serialize>(fmt: Fmt, value: &T) -> (Rec, Result<(), E>) {
     let mut rec = Rec::new(fmt);
@@ -625,4 +625,28 @@ pub fn replay_with<'a, T>(rec: &'a Rec, f: impl FnOnce(&mut Play<'a>) -> Result<
         return Err(E::Backend);
     }
     Ok(v)
+}
+
+// ------------------------------------------------------------------------------------- harness structs for the field helpers
+
+/// A user struct with a colour field stored through `#[serde(with = "palette::serde::as_array")]` (the documented use).
+#[derive(serde::Serialize, serde::Deserialize)]
+#[serde(bound(
+    serialize = "C: palette::cast::ArrayCast, C::Array: serde::Serialize",
+    deserialize = "C: palette::cast::ArrayCast, C::Array: serde::Deserialize<'de>"
+))]
+pub struct WithArray<C> {
+    #[serde(with = "palette::serde::as_array")]
+    pub c: C,
+}
+
+/// A user struct with a colour field stored through `#[serde(with = "palette::serde::as_uint")]` (the documented use).
+#[derive(serde::Serialize, serde::Deserialize)]
+#[serde(bound(
+    serialize = "C: palette::cast::UintCast, C::Uint: serde::Serialize",
+    deserialize = "C: palette::cast::UintCast, C::Uint: serde::Deserialize<'de>"
+))]
+pub struct WithUint<C> {
+    #[serde(with = "palette::serde::as_uint")]
+    pub c: C,
 }
